@@ -297,26 +297,30 @@ def check_known(prop, mod, out):
     for e in load_known():
         if e["property"] != prop:
             continue
-        wpath = os.path.join(ROOT, e["witness"]) if e.get("witness") else None
-        if not wpath:
+        wpaths = [os.path.join(ROOT, x) for x in ([e["witness"]] if e.get("witness") else []) + list(e.get("more_witnesses", []))]
+        if not wpaths:
             if e.get("status") == "open":
                 out(f"KNOWN-FINDING: property={prop} {e['id']} {e['what']}")
             continue
-        with open(wpath) as f:
-            w = json.load(f)
-        res = mod.replay(w["case"])
-        if e.get("status") == "open":
-            if res["kind"] == "violation" and res["signature"] in e.get("signatures", [e.get("signature")]):
-                out(f"KNOWN-FINDING: property={prop} {e['id']} {e['what']}")
-            elif res["kind"] == "violation":
-                viols.append({"signature": res["signature"], "detail": dict(res.get("detail", {}), witness_of=e["id"]),
-                              "case": w["case"]})
+        printed = False
+        for wpath in wpaths:
+            with open(wpath) as f:
+                w = json.load(f)
+            res = mod.replay(w["case"])
+            if e.get("status") == "open":
+                if res["kind"] == "violation" and res["signature"] in e.get("signatures", [e.get("signature")]):
+                    if not printed:
+                        out(f"KNOWN-FINDING: property={prop} {e['id']} {e['what']}")
+                        printed = True
+                elif res["kind"] == "violation":
+                    viols.append({"signature": res["signature"], "detail": dict(res.get("detail", {}), witness_of=e["id"]),
+                                  "case": w["case"]})
+                else:
+                    out(f"NOTE: known finding {e['id']} no longer reproduces on this tree ({res['kind']}; {os.path.basename(wpath)})")
             else:
-                out(f"NOTE: known finding {e['id']} no longer reproduces on this tree ({res['kind']})")
-        else:
-            if res["kind"] == "violation":
-                viols.append({"signature": res["signature"], "detail": dict(res.get("detail", {}), regression_of=e["id"]),
-                              "case": w["case"]})
+                if res["kind"] == "violation":
+                    viols.append({"signature": res["signature"], "detail": dict(res.get("detail", {}), regression_of=e["id"]),
+                                  "case": w["case"]})
     return viols
 
 
